@@ -310,3 +310,4 @@ BOUNDS = dict(
     "(unit and scaled rhs), two / two+zero right-hand-side columns with unrelated scales, concrete SPD and symbolic Jacobi preconditioners, cg() / CG() / "
     "inv(A, CG()) entry points", thorough="n = 4 with symbolic tol, max_iters 0..2n",
     values="alpha_k, rho_k, s, s2, x0, Jacobi scales, 0 < tol < 1 symbolic; each stopping index is a path, coverage checked by z3")
+BOUNDS["added"] = 'a zero right-hand side (alone or as one column) together with a non-zero initial guess'
